@@ -169,7 +169,7 @@ Reset ==
   /\ lk' = [a \in Actors |-> InitRec(a).sup]
   /\ sig' = [a \in Actors |-> "none"] /\ mayExit' = {}
   /\ apc' = [a \in Actors |-> "live"] /\ phase' = [a \in Actors |-> "none"]
-  /\ awork' = [a \in Actors |-> {}] /\ acur' = [a \in Actors |-> NoA] /\ asup' = [a \in Actors |-> NoA]
+  /\ awork' = [a \in Actors |-> NoWork] /\ acur' = [a \in Actors |-> NoA] /\ asup' = [a \in Actors |-> NoA]
   /\ nenv' = 0 /\ dev' = {}
   /\ top' = [t \in TIds |-> NoOp]
 
